@@ -70,7 +70,7 @@ Theorem C10_store_preserves : forall c st bs, Good c st -> Jt st ->
   Good c st' /\ Rel c st st' /\ (forall p, r = Ok p -> fst p = zlen bs /\ deref c st' p = Ok bs).
 Proof.
   intros c st bs G J. pose proof (store_good c st bs G J) as H. destruct (store c st bs) as [st' r].
-  destruct H as (G' & _ & R & _ & Hp & _). split; [exact G'|]. split; [exact R|]. intros p E. destruct (Hp p E) as (_ & A & B). auto.
+  destruct H as (G' & _ & R & _ & Hp & _). split; [exact G'|]. split; [exact R|]. intros p E. destruct (Hp p E) as (_ & A & B & _). auto.
 Qed.
 Print Assumptions C10_store_preserves.
 
